@@ -205,6 +205,20 @@ func TestVerifC16Text(t *testing.T) {
 	}
 }
 
+var vexKnownCache map[string]bool
+
+func vexKnownSet() map[string]bool {
+	if vexKnownCache == nil {
+		vexKnownCache = map[string]bool{}
+		for _, f := range strings.Split(os.Getenv("VERIF_VEXKNOWN"), ",") {
+			if f != "" {
+				vexKnownCache[f] = true
+			}
+		}
+	}
+	return vexKnownCache
+}
+
 type textStats struct {
 	funcs, instrs, agree, differ, oracleFail, distinct                          int
 	refBlind, refWrong, ruleDiff, boundaryOnly, misframed, unknown, ruleChecked int
@@ -387,6 +401,10 @@ func walkELF(path string, seen map[string]bool, w *bufio.Writer) (textStats, err
 			refOK := r.err == "ok" && r.len != 0 && r.op != "Op(0)"
 			rn, fam, ruleOK := ilen(win)
 			isVEX := win[0] == 0xC4 || win[0] == 0xC5
+			// Does goom's table have an entry for this VEX opcode at all?  $VERIF_VEXKNOWN lists the (map, pp, opcode) triples that have
+			// a VEX path in the dumped table (computed by tools/x86table.py); for any other VEX opcode both decoders fall through to the
+			// legacy opcode with the same byte ("fallback").
+			vexKnown := isVEX && ruleOK && vexKnownSet()[fam]
 			// Ground truth for the boundary.  VEX-encoded instructions: the independent length rule (the reference shares goom's
 			// lineage and falls back to the legacy one-byte opcode for VEX opcodes its table lacks).  Everything else: the
 			// reference, and the rule where the reference is blind.  Neither: abandon the function (never compare windows that may
@@ -455,14 +473,14 @@ func walkELF(path string, seen map[string]bool, w *bufio.Writer) (textStats, err
 				// boundary-only judgement against the independent rule
 				// (a legacy mnemonic for a VEX-encoded instruction is the fallback defect even when the length happens to coincide:
 				//  c5 fd 74 c1 VPCMPEQB is reported as "JE rel8" with a PC-relative field)
-				if g.err == "ok" && g.len == n && g.op != "Op(0)" && (!isVEX || strings.HasPrefix(g.op, "V")) {
+				if g.err == "ok" && g.len == n && g.op != "Op(0)" && (!isVEX || vexKnown) {
 					st.agree++
 					st.boundaryOnly++
 				} else {
 					st.misframed++
-					// class: does goom's table know this opcode at all?  (a V* mnemonic for a VEX opcode / any mnemonic otherwise)
+					// class: does goom's table know this opcode at all?  (a real mnemonic that is not the legacy fallback)
 					class := "unknown-to-table"
-					if g.err == "ok" && g.op != "Op(0)" && (!isVEX || strings.HasPrefix(g.op, "V")) {
+					if g.err == "ok" && g.op != "Op(0)" && (!isVEX || vexKnown) {
 						class = "wrong-entry"
 					}
 					k := class + ":" + fam
